@@ -3,6 +3,7 @@ constant-evaluator run of the constexpr batteries, default-initialised objects o
 aggregation: the sanitizer builds that the other packages declare for their harnesses are run on those packages'
 case sets and must agree with the extracted models case by case (a sanitizer abort shows up as `crash`)."""
 import concurrent.futures
+import os
 import random
 import time
 
@@ -16,6 +17,11 @@ HARNESSES = [
     {"name": "san", "src": "harness.cpp", "flags": ["-O1", "-g0", "-DC02_SAN=1", "-DTETL_ENABLE_CONTRACT_CHECKS=1"] + SAN},
     # the constexpr batteries evaluated by the constant evaluator (table ce_table): UB there makes THIS variant ill-formed
     {"name": "ce", "src": "harness.cpp", "flags": ["-O0", "-DC02_CE=1", "-DTETL_ENABLE_CONTRACT_CHECKS=1"]},
+    # the same under valgrind memcheck (vgcxx.py wraps the binary): no 0xFF poisoning of the default-initialisation storage
+    # there, so a read of a member without initialiser is a memcheck error (= `crash 1099`), which is what the model says
+    # (UB UninitRead) -- the driver prints that for the model leg when C02_VG is set
+    {"name": "vg", "src": "harness.cpp", "compiler": os.path.join(os.path.dirname(os.path.abspath(__file__)), "vgcxx.py"),
+     "flags": ["-O1", "-g", "-DC02_SAN=1", "-DC02_VG=1", "-DTETL_ENABLE_CONTRACT_CHECKS=1"], "env": {"C02_VG": "1"}},
 ]
 N_BATTERIES = 16
 N_CE = 14
@@ -44,7 +50,8 @@ TRUSTED_BASE = ["ASan/UBSan runtime of g++ 12 (what they can see: heap/stack/glo
                 "invalid shifts; NOT intra-object overflow, NOT uninitialised reads — those are covered by the models' checked accesses "
                 "and, for the constexpr batteries, by GCC's constant evaluator)",
                 "GCC 12 constant evaluator as UB oracle for the constexpr batteries (fixed inputs: seeds 0, 1, 7)",
-                "allocation counter: replaced operator new/delete + interposed malloc/calloc/realloc"]
+                "allocation counter: replaced operator new/delete + interposed malloc/calloc/realloc",
+                "valgrind 3.19 memcheck (variant vg): use of uninitialised values, invalid heap reads/writes at run time"]
 ASSUMPTIONS = ["memory safety of the compiled object code beyond the models' index/initialisation/overflow discipline is sanitizer-observed, not proved"]
 
 # every package with a model (C05: the precondition-violating calls -- under ASan+UBSan they show that the contract check
